@@ -551,10 +551,11 @@ H("C18", "features::verif_h::c18_fromstr_fixed", FEATF, covers=1, stubs=[FMT], f
 
 H("C01", "lexer::verif_h::c01_keywords_instructions", LEX, covers=1, stubs=[FMT], timeout=2400,
   functions=["Cursor::check_instruction", "Cursor::check_trap", "Cursor::check_directive"], what="all 45 keywords (lowercase) -> documented token kinds; non-keywords -> Label", bounds="concrete keywords")
-H("C01", "lexer::verif_h::c01_literal_values", LEX, covers=2, stubs=[FMT, KW], timeout=2400, mem_gb=20, functions=["Cursor::advance_token", "Cursor::hex", "Cursor::dec"],
-  what="#dec / xHEX literals, optional '-', 1..3 symbolic digits: token value == numeric value (two's complement), token spans the literal", bounds="<= 3 digits")
-H("C04", "lexer::verif_h::c01_literal_values", LEX, tier="thorough", covers=2, stubs=[FMT, KW], timeout=2400, mem_gb=20, functions=["Cursor::hex", "Cursor::dec"],
-  what="literal values", bounds="<= 3 digits")
+for nm, q in [("hex", True), ("hex_neg", False), ("dec", False), ("dec_neg", True)]:
+    for pp in ("C01", "C04"):
+        H(pp, f"lexer::verif_h::c01_literal_{nm}", LEX, tier=("quick" if q and pp == "C01" else "thorough"), covers=2, stubs=[FMT, KW], timeout=2400, mem_gb=20,
+          functions=["Cursor::advance_token", "Cursor::hex", "Cursor::dec"],
+          what=f"literal spelling '{nm}' with 1..3 symbolic digits: token value == numeric value (two's complement), token spans the literal", bounds="<= 3 digits")
 H("C17", "parser::verif_h::c17_statement_span_and_break", PAR, covers=2, stubs=PE_STUBS, timeout=2400, mem_gb=20,
   functions=["AsmParser::parse", "AsmParser::expect_reg", "Air::add_stmt"], what="statement span = mnemonic .. last consumed operand, for arbitrary increasing token spans; operand-less statement", bounds="one statement")
 H("C11", "parser::verif_h::c17_statement_span_and_break", PAR, covers=2, stubs=PE_STUBS, timeout=2400, mem_gb=20,
